@@ -616,6 +616,9 @@ func newGenTree(r *RNG, kt KeyType, val string, lim int) *genTree {
 		if r.Chance(1, 10) {
 			L = r.Range(40, 140) // long keys: several inline limits deep, beyond any small fixed buffer
 		}
+		if r.Chance(1, 60) {
+			L = r.Range(900, 5000) // very long keys: beyond page-sized internal buffers
+		}
 		if L < 0 {
 			L = 0
 		}
@@ -633,6 +636,9 @@ func newGenTree(r *RNG, kt KeyType, val string, lim int) *genTree {
 			run = append(clone(g.runs[0][:h]), run...)
 			if len(run) > 28 && L < 40 {
 				run = run[:28]
+			}
+			if len(run) > 5200 {
+				run = run[:5200]
 			}
 		}
 		g.runs = append(g.runs, run)
@@ -656,6 +662,14 @@ func newGenTree(r *RNG, kt KeyType, val string, lim int) *genTree {
 		n := r.Intn(7)
 		for j := 0; j < n; j++ {
 			p = append(p, pick(r, collAtoms)...)
+		}
+		if kt.Kind == "collation" && r.Chance(1, 40) {
+			// a very long shared prefix: sort keys far beyond any page-sized scratch buffer
+			n := r.Range(850, 1600)
+			p = p[:0]
+			for len(p) < n {
+				p = append(p, byte('a'+r.Intn(3)))
+			}
 		}
 		g.collPfx = append(g.collPfx, p)
 	}
@@ -722,6 +736,8 @@ func genTrace(prop string, seed uint64, run int, o genOpts) *Trace {
 		ownCodec := kt.Kind == "compound" && r.Chance(1, 3)
 		if ownCodec {
 			cfg.Codec = "own"
+		} else if kt.Kind == "compound" && r.Chance(1, 3) {
+			cfg.Codec = "zerocopy"
 		}
 		tr.Trees = append(tr.Trees, cfg)
 		gt := newGenTree(r, kt, val, o.lim)
